@@ -814,6 +814,7 @@ class _Run:
 
 
 class GrpcSim(Simulator):
+    isolate_runs = True
     name = "grpcsim"
     property_id = "C11"
     level = "exploration"
